@@ -45,21 +45,21 @@ func builtinStringFromCharCode(call FunctionCall) Value {
 func builtinStringCharAt(call FunctionCall) Value {
 	checkObjectCoercible(call.runtime, call.This)
 	idx := int(call.Argument(0).number().int64)
-	chr := stringAt(newStringObject(call.This.string()), idx)
-	if chr == utf8.RuneError {
+	str := newStringObject(call.This.string())
+	if idx < 0 || idx >= str.Length() {
 		return stringValue("")
 	}
-	return stringValue(string(chr))
+	return stringValue(string(str.At(idx)))
 }
 
 func builtinStringCharCodeAt(call FunctionCall) Value {
 	checkObjectCoercible(call.runtime, call.This)
 	idx := int(call.Argument(0).number().int64)
-	chr := stringAt(newStringObject(call.This.string()), idx)
-	if chr == utf8.RuneError {
+	str := newStringObject(call.This.string())
+	if idx < 0 || idx >= str.Length() {
 		return NaNValue()
 	}
-	return uint16Value(uint16(chr))
+	return uint16Value(uint16(str.At(idx)))
 }
 
 func builtinStringConcat(call FunctionCall) Value {
